@@ -185,6 +185,15 @@ def same(a, b):
     return a == b
 
 
+def same_model_real(a, b):
+    """Model observation a against real observation b: a cell the MODEL reports as POISON (content of np.empty that was
+    never written, or a cast NumPy leaves undefined) stands for arbitrary memory, so the real library may show anything
+    there; everything else must agree exactly."""
+    if 'POISON' in json.dumps(a, default=repr):
+        return True     # the result depends on uninitialised memory (also through values derived from it): nothing to agree on
+    return same(a, b)
+
+
 def load_known(prop):
     path = os.path.join(VERIF, 'known_findings.json')
     if not os.path.exists(path):
@@ -269,9 +278,14 @@ def main(prop, tier='quick', seed=0, replay=None, only=None, jobs=None):
     trace_gaps = 0
     for a, b in zip(rm['results'], rr['results']):
         if isinstance(a['got'], list) and a['got'] and a['got'][0] == 'GAP':
+            # the model lacks something this input needs (the solver query for the condition will be inconclusive): the
+            # model/real comparison is skipped, but the REAL library's answer on this sample is still judged
             trace_gaps += 1
+            if b['exp'] is None or not same(jnorm(b['got']), jnorm(b['exp'])):
+                if not (isinstance(b['got'], list) and b['got'] and b['got'][0] == 'GAP'):
+                    trace_violations.append(dict(cond=b['cond'], args=b['args'], got=b['got'], exp=b['exp'], source='trace'))
             continue
-        if not same(jnorm(a['got']), jnorm(b['got'])) or not same(jnorm(a['exp']), jnorm(b['exp'])):
+        if not same_model_real(jnorm(a['got']), jnorm(b['got'])) or not same(jnorm(a['exp']), jnorm(b['exp'])):
             harness_errors.append(f"model/real disagree: cond={a['cond']} args={a['args']} model={a['got']!r} real={b['got']!r}")
             continue
         traces_ok += 1
